@@ -937,9 +937,17 @@ func init() {
 		if th {
 			depth = 5
 		}
+		// 64 sequences per item (a worker process serves one item: thousands of Badger instances opened and closed in one
+		// process keep gigabytes resident)
 		for a := 0; a < 8; a++ {
 			for b := 0; b < 8; b++ {
-				items = append(items, StoreItem{Mode: "direct", Cache: 2, Depth: depth, Prefix: []int{a, b}})
+				if depth <= 4 {
+					items = append(items, StoreItem{Mode: "direct", Cache: 2, Depth: depth, Prefix: []int{a, b}})
+					continue
+				}
+				for c := 0; c < 8; c++ {
+					items = append(items, StoreItem{Mode: "direct", Cache: 2, Depth: depth, Prefix: []int{a, b, c}})
+				}
 			}
 		}
 		raw := make([]json.RawMessage, len(items))
@@ -947,7 +955,7 @@ func init() {
 			raw[i], _ = json.Marshal(it)
 		}
 		bud := budget(map[bool]time.Duration{false: 170 * time.Second, true: 40 * time.Minute}[th])
-		pool := explore.Pool{Mode: "store", Deadline: time.Now().Add(bud)}
+		pool := explore.Pool{Mode: "store", Deadline: time.Now().Add(bud), Recycle: 1}
 		tot := &StoreResult{Ctr: map[string]int{}}
 		states := map[string]bool{}
 		var crashes []string
